@@ -34,6 +34,7 @@ pub enum LogicalOp {
 }
 pub struct ConditionEvaluatorBuilder {
     pub evaluator: ConditionEvaluator,
+    pub temporal_fields: Option<HashSet<String>>,
 }
 
 impl ConditionEvaluatorBuilder {
@@ -42,6 +43,7 @@ impl ConditionEvaluatorBuilder {
 {
         Self {
             evaluator: ConditionEvaluator::new(),
+            temporal_fields: None,
         }
     }
 
@@ -50,6 +52,15 @@ impl ConditionEvaluatorBuilder {
 {
         ();
         self.evaluator
+    }
+
+    pub fn sub_builder(&self) -> (r: Self)
+     ensures conds(r.evaluator) == Seq::<BoxedCondition>::empty(), // OBL:C02.evaluator_builder.sub_builder.starts_empty
+{
+        Self {
+            evaluator: ConditionEvaluator::new(),
+            temporal_fields: self.temporal_fields.clone(),
+        }
     }
 
     pub fn add_where_clause(&mut self, where_clause: &Expr)
@@ -71,9 +82,9 @@ self.evaluator.__in_arm(field, values);
                  assert(supported(*where_clause) == (supported(**left) && supported(**right)));
                  assert(forall|row: Row| sem_e(*where_clause, row) == (sem_e(**left, row) && sem_e(**right, row)));
                 ();
-                let mut left_builder = ConditionEvaluatorBuilder::new();
+                let mut left_builder = self.sub_builder();
                 left_builder.add_where_clause(left);
-                let mut right_builder = ConditionEvaluatorBuilder::new();
+                let mut right_builder = self.sub_builder();
                 right_builder.add_where_clause(right);
 
                 let left_condition = left_builder.into_evaluator().into_conditions();
@@ -90,9 +101,9 @@ self.evaluator.__in_arm(field, values);
                  assert(supported(*where_clause) == (supported(**left) && supported(**right)));
                  assert(forall|row: Row| sem_e(*where_clause, row) == (sem_e(**left, row) || sem_e(**right, row)));
                 ();
-                let mut left_builder = ConditionEvaluatorBuilder::new();
+                let mut left_builder = self.sub_builder();
                 left_builder.add_where_clause(left);
-                let mut right_builder = ConditionEvaluatorBuilder::new();
+                let mut right_builder = self.sub_builder();
                 right_builder.add_where_clause(right);
 
                 let left_condition = left_builder.into_evaluator().into_conditions();
@@ -109,7 +120,7 @@ self.evaluator.__in_arm(field, values);
                  assert(supported(*where_clause) == supported(**expr));
                  assert(forall|row: Row| sem_e(*where_clause, row) == !sem_e(**expr, row));
                 ();
-                let mut expr_builder = ConditionEvaluatorBuilder::new();
+                let mut expr_builder = self.sub_builder();
                 expr_builder.add_where_clause(expr);
 
                 let expr_condition = expr_builder.into_evaluator().into_conditions();
@@ -135,6 +146,14 @@ self.evaluator.__in_arm(field, values);
 pub struct Value { _p: core::marker::PhantomData<()> }
 #[verifier::external_body]
 pub struct Row { _p: core::marker::PhantomData<()> }
+/// the set of time-typed field names carried by the builder (only cloned here)
+#[verifier::external_body]
+#[verifier::reject_recursive_types(T)]
+pub struct HashSet<T> { _p: core::marker::PhantomData<T> }
+impl Clone for HashSet<String> {
+    #[verifier::external_body]
+    fn clone(&self) -> (r: Self) ensures r == *self { unimplemented!() }
+}
 #[verifier::external_body]
 pub struct BoxedCondition { _p: core::marker::PhantomData<()> }
 #[verifier::external_body]
